@@ -34,7 +34,7 @@ CHECKS = {
             'Provider side only; one MDIB file; depth/alphabet bounds as in the evidence. Version bookkeeping of the oracle is '
             'independent of handle_version_lookup.', '3/C02'),
     'C03': ('H+I', 'exhaustive crash-point enumeration over transaction bodies plus exhaustive enumeration (by reflection) of nested attribute paths of every handed-out object, against full canonical MDIB snapshots',
-            'Extensions: the vetoing pre-commit handler runs after the role providers' own handler (their preparations must be undone too); refreshed multi-state entity that learns a new state in update(); rejected calls whose exception is handled inside the transaction body (differential oracle: the same transaction without the call); commit paths the API could make fail half-way (state that exists in the mdib, foreign context-state handle through the entity interface, changed Handle of a descriptor copy); entities refreshed with entity.update() after a later commit made them stale are handed-out objects too (nested writes must stay private); every keyword combination of mk_context_state / add_state (handle none/existing/new x adjust_state_version x set_associated) as all-or-nothing calls; with periodic reports on, writing to a transaction result must not change the states retained for the periodic report of that commit. '
+            'Extensions: the vetoing pre-commit handler runs after the own handler of the role providers (their preparations must be undone too); refreshed multi-state entity that learns a new state in update(); rejected calls whose exception is handled inside the transaction body (differential oracle: the same transaction without the call); commit paths the API could make fail half-way (state that exists in the mdib, foreign context-state handle through the entity interface, changed Handle of a descriptor copy); entities refreshed with entity.update() after a later commit made them stale are handed-out objects too (nested writes must stay private); every keyword combination of mk_context_state / add_state (handle none/existing/new x adjust_state_version x set_associated) as all-or-nothing calls; with periodic reports on, writing to a transaction result must not change the states retained for the periodic report of that commit. '
             'For 13 transaction bodies covering every transaction kind through the classic and the entity interface, an exception is '
             'raised after every non-empty ordered selection of the body\'s API calls and in the pre-commit hook; 29 calls the API must '
             'reject and 3 commit paths the API can make fail are issued alone and after a valid modification; every nested attribute '
